@@ -97,20 +97,36 @@ pub fn gen_case(seed: u64, family: &str, tier: Tier) -> Case {
 }
 
 fn load_uncached(v: &VehicleCfg, model: &str, rate_unit: EnergyRateUnit) -> Result<PredictionModelRecord, String> {
-    let model_type = if v.interpolate {
-        ModelType::Interpolate {
-            underlying_model_type: Box::new(ModelType::Smartcore),
-            speed_lower_bound: Speed::new(0.0),
-            speed_upper_bound: Speed::new(100.0),
-            speed_bins: 21,
-            grade_lower_bound: Grade::new(-0.2),
-            grade_upper_bound: Grade::new(0.2),
-            grade_bins: 9,
-        }
-    } else {
-        ModelType::Smartcore
+    let (m_speed, m_grade) = v.model_units.clone().unwrap_or(("miles_per_hour".into(), "decimal".into()));
+    let (speed_unit, grade_unit): (SpeedUnit, GradeUnit) = (unit(&m_speed), unit(&m_grade));
+    if !v.interpolate {
+        // a raw model is built by its own constructor, not through the application's loading function: whatever
+        // that function keeps between two loads in one process does not reach the oracle
+        use routee_compass_powertrain::routee::prediction::smartcore::smartcore_speed_grade_model::SmartcoreSpeedGradeModel;
+        let m = SmartcoreSpeedGradeModel::new(&model.to_string(), speed_unit, grade_unit, rate_unit).map_err(|e| e.to_string())?;
+        return Ok(PredictionModelRecord {
+            name: v.name.clone(),
+            prediction_model: std::sync::Arc::new(m),
+            model_type: ModelType::Smartcore,
+            speed_unit,
+            grade_unit,
+            energy_rate_unit: rate_unit,
+            ideal_energy_rate: routee_compass_core::model::unit::EnergyRate::new(0.0),
+            real_world_energy_adjustment: v.adjustment.unwrap_or(1.0),
+            cache: None,
+        });
+    }
+    let (s_hi, g_hi) = crate::world::interpolation_bounds(&m_speed, &m_grade);
+    let model_type = ModelType::Interpolate {
+        underlying_model_type: Box::new(ModelType::Smartcore),
+        speed_lower_bound: Speed::new(0.0),
+        speed_upper_bound: Speed::new(s_hi),
+        speed_bins: 21,
+        grade_lower_bound: Grade::new(-g_hi),
+        grade_upper_bound: Grade::new(g_hi),
+        grade_bins: 9,
     };
-    load_prediction_model(v.name.clone(), &model.to_string(), model_type, SpeedUnit::MilesPerHour, GradeUnit::Decimal, rate_unit, None, v.adjustment, None).map_err(|e| e.to_string())
+    load_prediction_model(v.name.clone(), &model.to_string(), model_type, speed_unit, grade_unit, rate_unit, None, v.adjustment, None).map_err(|e| e.to_string())
 }
 
 fn unit<T: serde::de::DeserializeOwned>(name: &str) -> T {
